@@ -763,7 +763,8 @@ func (o *oracleCtx) c04() {
 			for i, sg := range pm.segs {
 				msn := pm.msn + int64(i)
 				p, _ := stripQuery(sg.uri)
-				e := entry{uri: p, dur: sg.durText, gap: sg.gap}
+				// the URI as listed, query included: every playlist of a history is requested with the same query
+				e := entry{uri: sg.uri, dur: sg.durText, gap: sg.gap}
 				if old, ok := byMSN[si][msn]; ok && old != e {
 					o.fail("C04", vn+":msn-denotes-different-segment", "stream %d: media sequence number %d was (%s, %s, gap=%v), now (%s, %s, gap=%v)", si, msn, old.uri, old.dur, old.gap, e.uri, e.dur, e.gap)
 				}
